@@ -12,6 +12,13 @@
 (* addresses nobody asked for / garbage / error).  Each terminal state is  *)
 (* replayed on the real Symbolizer with scripted plug-ins and the recorded *)
 (* before/after pair is decided by TraceSymbolize.tla (frame condition).   *)
+(* A behaviour is either ONE run over the whole catalogue or a SEQUENCE of *)
+(* SeqLen runs on one profile (the driver symbolizes a fetched profile,    *)
+(* the user saves it and symbolizes the saved file again, with force, with *)
+(* other binaries): the script of every run is drawn from SeqScripts and   *)
+(* the runs are replayed one after the other on the same profile object;   *)
+(* TraceSymbolize.tla decides every run of the sequence and carries the    *)
+(* has-symbols flags seen so far from run to run.                          *)
 (***************************************************************************)
 EXTENDS CodecRules, Json
 
@@ -30,7 +37,7 @@ Prof(fns, maps, locs) ==
 
 \* function tables: sparse ids, names that exercise demangling (mangled, C++-looking, the "(a::b)" trap, no system name)
 FnSets == << <<>>,
-             <<FnR(2, "keep", "keep")>>,
+             <<[FnR(2, "keep", "keep") EXCEPT !.file = "k.c", !.start = 3]>>,      \* (with a file name and a start line: the "same" answer repeats all of it)
              <<FnR(5, "ns::f(int)", "ns::f(int)"), FnR(1, "_Z3foov", "_Z3foov")>>,
              <<FnR(1, "named", ""), FnR(3, "(a::b)", "(a::b)")>>,
              <<FnR(2, "<unknown>", "<unknown>"), FnR(4, "(anonymous namespace)<T>", "(anonymous namespace)<T>")>> >>   \* names made of bracket groups only
@@ -52,26 +59,56 @@ LocsFor(maps, fns, symd) ==
      LocR(3, maps[2].id, maps[2].start, IF symd /\ Len(fns) > 0 THEN <<LineR(fns[1].id)>> ELSE <<>>) >>
      \* a second location at the address of the first, without lines, where the first has some (distinct locations may share an address)
      \o (IF maps[1].hasline /\ Len(fns) > 0 THEN << LocR(9, maps[1].id, maps[1].start, <<>>) >> ELSE <<>>)
-Profiles == { Prof(FnSets[f], MapSets[m], LocsFor(MapSets[m], FnSets[f], MapSets[m][2].hasfn)) : f \in DOMAIN FnSets, m \in DOMAIN MapSets }
+PAt(f, m) == Prof(FnSets[f], MapSets[m], LocsFor(MapSets[m], FnSets[f], MapSets[m][2].hasfn))
+Profiles == { PAt(f, m) : f \in DOMAIN FnSets, m \in DOMAIN MapSets }
 
 Modes == {"", "local", "fastlocal", "remote", "none", "force", "local:force", "remote:force", "demangle=full", "demangle=none",
           "local:demangle=templates", "force:demangle=default", "bogus", "local:bogus",
           "demangle=default", "local:demangle=default"}      \* the default demangling is no request to force
 OpenAnswers == {"ok", "error", "mismatch"}
-LineAnswers == {"one", "two", "empty", "error", "hole"}
+\* "same": one frame IDENTICAL in every attribute (name = system name, file, start line) to a function that is already in
+\* the profile's table when the run starts (the first one whose name equals its system name; an inline function of a shared
+\* header when there is none, so that two locations of one run get the very same frame)
+LineAnswers == {"one", "two", "empty", "error", "hole", "same"}
 RemoteAnswers == {"all", "subset", "extra", "garbage", "error", "emptyname"}
 
-VARIABLES pc, prof, mode, opens, lineans, remotes
-vars == <<pc, prof, mode, opens, lineans, remotes>>
-Init == pc = "mode" /\ prof \in Profiles /\ mode = "" /\ opens = <<>> /\ lineans = <<>> /\ remotes = <<>>
-ParseMode == pc = "mode" /\ mode' \in Modes /\ pc' = "local" /\ UNCHANGED <<prof, opens, lineans, remotes>>
+\* ---- sequences of runs on one profile ----
+Script(m, o, ls, rs) == [mode |-> m, opens |-> o, lines |-> ls, remotes |-> rs]
+U3(a) == <<a, a, a>>
+OkOk == <<"ok", "ok">>
+AllAll == <<"all", "all">>
+SeqLen == 3
+\* a plain run; a plain run with other answers (other names, another number of inlined lines); forced runs in which the
+\* object file answers NOTHING (SourceLine fails or returns no frames: a stripped or unreadable binary), answers with a
+\* function that is already in the table, answers something else; forced local+remote; the service alone; a forced run in
+\* which neither the object file nor the service answers
+SeqScriptsQuick ==
+  { Script("local", OkOk, U3("one"), AllAll), Script("local", OkOk, U3("two"), AllAll),
+    Script("local:force", OkOk, <<"error", "empty", "error">>, AllAll), Script("local:force", OkOk, U3("same"), AllAll),
+    Script("local:force", OkOk, U3("two"), AllAll), Script("force", OkOk, U3("one"), AllAll),
+    Script("remote", OkOk, U3("one"), AllAll), Script("demangle=none", OkOk, U3("empty"), <<"error", "error">>) }
+SeqScripts == IF Tier = "thorough"
+              THEN SeqScriptsQuick \cup { Script("local:force", OkOk, U3("one"), AllAll), Script("remote:force", OkOk, U3("one"), AllAll),
+                                          Script("", OkOk, U3("one"), <<"subset", "subset">>), Script("local", OkOk, U3("same"), AllAll) }
+              ELSE SeqScriptsQuick
+\* quick: a fresh profile (nothing symbolised, empty function table), unsymbolised + symbolised mapping, the partly
+\* symbolised pair (line numbers / file names only), two mappings of one binary with mangled names in the table
+SeqProfiles == IF Tier = "thorough" THEN Profiles ELSE { PAt(1, 4), PAt(2, 1), PAt(2, 5), PAt(3, 6) }
+
+VARIABLES pc, prof, mode, opens, lineans, remotes, seq, done
+vars == <<pc, prof, mode, opens, lineans, remotes, seq, done>>
+Cur == Script(mode, opens, lineans, remotes)
+Init == /\ pc = "mode" /\ prof \in Profiles /\ mode = "" /\ opens = <<>> /\ lineans = <<>> /\ remotes = <<>>
+        /\ seq \in (IF prof \in SeqProfiles THEN BOOLEAN ELSE {FALSE}) /\ done = <<>>
+ParseMode == pc = "mode" /\ ~seq /\ mode' \in Modes /\ pc' = "local" /\ UNCHANGED <<prof, opens, lineans, remotes, seq, done>>
 UsesLocal(m) == m \notin {"remote", "remote:force", "none"}
 UsesRemote(m) == m \notin {"local", "fastlocal", "local:force", "local:demangle=templates", "local:demangle=default", "local:bogus", "none"}
 Both(m) == UsesLocal(m) /\ UsesRemote(m)
 OpenChoices == IF Tier = "thorough" THEN [1..2 -> OpenAnswers]
                ELSE { <<"ok", "ok">>, <<"error", "ok">>, <<"mismatch", "ok">>, <<"ok", "error">> }
-LineChoices == IF Tier = "thorough" THEN [1..3 -> LineAnswers]
-               ELSE { [i \in 1..3 |-> a] : a \in LineAnswers } \cup { <<"one", "error", "two">>, <<"empty", "two", "one">>, <<"hole", "one", "hole">> }
+\* (thorough: "same" is one frame like "one", it differs in the function it names: not crossed with everything else)
+LineChoices == IF Tier = "thorough" THEN [1..3 -> LineAnswers \ {"same"}] \cup { <<"same", "same", "same">>, <<"one", "same", "same">>, <<"same", "error", "two">>, <<"two", "same", "empty">> }
+               ELSE { [i \in 1..3 |-> a] : a \in LineAnswers } \cup { <<"one", "error", "two">>, <<"empty", "two", "one">>, <<"hole", "one", "hole">>, <<"one", "same", "same">> }
 RemoteChoices == IF Tier = "thorough" THEN [1..2 -> RemoteAnswers]
                  ELSE { [i \in 1..2 |-> a] : a \in RemoteAnswers } \cup { <<"all", "error">>, <<"subset", "extra">> }
 \* the object-file plug-in answers for both mappings (one answer each) and one SourceLine answer class per location;
@@ -81,16 +118,24 @@ Local == /\ pc = "local"
             ELSE IF Both(mode) /\ Tier # "thorough"
                  THEN opens' \in { <<"ok", "ok">>, <<"error", "ok">> } /\ lineans' \in { <<"one", "one", "one">>, <<"empty", "empty", "empty">>, <<"one", "error", "two">> }
                  ELSE IF Both(mode)      \* thorough: every pair of Open answers and every pair of remote answers, the line answers that differ in kind
-                 THEN opens' \in OpenChoices /\ lineans' \in { <<"one", "one", "one">>, <<"empty", "empty", "empty">>, <<"one", "error", "two">>, <<"two", "empty", "error">> }
+                 THEN opens' \in OpenChoices /\ lineans' \in { <<"one", "one", "one">>, <<"empty", "empty", "empty">>, <<"one", "error", "two">>, <<"two", "empty", "error">>, <<"same", "same", "same">> }
                  ELSE opens' \in OpenChoices /\ lineans' \in LineChoices
-         /\ pc' = "remote" /\ UNCHANGED <<prof, mode, remotes>>
+         /\ pc' = "remote" /\ UNCHANGED <<prof, mode, remotes, seq, done>>
 Remote == /\ pc = "remote"
           /\ IF ~UsesRemote(mode) THEN remotes' = <<"all", "all">> ELSE remotes' \in RemoteChoices
-          /\ pc' = "done" /\ UNCHANGED <<prof, mode, opens, lineans>>
-Finish == /\ pc = "done" /\ pc' = "end"
-          /\ (Emit => PrintT(ToJson([prof |-> prof, mode |-> mode, opens |-> opens, lines |-> lineans, remotes |-> remotes])))
-          /\ UNCHANGED <<prof, mode, opens, lineans, remotes>>
-Next == ParseMode \/ Local \/ Remote \/ Finish
+          /\ pc' = "done" /\ UNCHANGED <<prof, mode, opens, lineans, seq, done>>
+\* a run of a sequence: the whole script of the run is chosen at once
+SeqRun == /\ pc = "mode" /\ seq
+          /\ \E sc \in SeqScripts : mode' = sc.mode /\ opens' = sc.opens /\ lineans' = sc.lines /\ remotes' = sc.remotes
+          /\ pc' = "done" /\ UNCHANGED <<prof, seq, done>>
+Again == /\ pc = "done" /\ seq /\ Len(done) < SeqLen - 1
+         /\ done' = Append(done, Cur) /\ pc' = "mode" /\ mode' = "" /\ opens' = <<>> /\ lineans' = <<>> /\ remotes' = <<>>
+         /\ UNCHANGED <<prof, seq>>
+\* (only complete sequences are emitted: every run is decided, so the shorter ones are their prefixes)
+Finish == /\ pc = "done" /\ (seq => Len(done) = SeqLen - 1) /\ pc' = "end"
+          /\ (Emit => PrintT(ToJson([prof |-> prof, runs |-> Append(done, Cur)])))
+          /\ UNCHANGED <<prof, mode, opens, lineans, remotes, seq, done>>
+Next == ParseMode \/ Local \/ Remote \/ SeqRun \/ Again \/ Finish
 Spec == Init /\ [][Next]_vars
 \* the catalogue only contains valid profiles (the frame condition includes "the result is valid")
 CatalogueValid == Valid(prof)
